@@ -14,6 +14,7 @@ TdlChannelProfile.get_discretize_profile.
 Stage T (rel): harness/props/c03_real.py - the same TLC-emitted scenarios on real Jakes / Rayleigh
 generators with random profiles; output vs convolution with the REPORTED response, numerically."""
 import math
+import os
 import random
 from concurrent.futures import ThreadPoolExecutor
 from fractions import Fraction
@@ -29,11 +30,15 @@ LAWS = ["DiscLaw", "BlockLaw", "PosLaw", "SetLaw", "ChanLaw"]
 DEVS = ["DiscRoundHalfUp", "DiscMergeKeepsLast", "DiscNoNormalise", "NoSkipBetweenBlocks", "PathlossNotInReported",
         "ShiftByTapIndex", "SwitchedNotTransposed", "TailDropped", "SliceBlockSizeFloorDiv", "MuSetPathlossNoneRaises"]
 # real deviations of the code (the others are plausible regressions used to show the laws are not vacuous)
-REAL_DEVS = {"SliceBlockSizeFloorDiv": "corrupt_data_in_freq_domain raises (or would mis-size blocks) for a slice whose step "
+REAL_DEVS = {"ProfileRmsSqrtDomain": "TdlChannelProfile() raises ValueError (math domain error) when all taps share one non-zero "
+                                     "delay: rms delay spread takes the sqrt of a variance that rounds below zero",
+             "SliceBlockSizeFloorDiv": "corrupt_data_in_freq_domain raises (or would mis-size blocks) for a slice whose step "
                                        "does not divide its span: block size is computed as (stop-start)//step",
              "MuSetPathlossNoneRaises": "MuChannel.set_pathloss(None) raises TypeError although None is documented to "
                                         "disable the path loss"}
 NONE = 99
+# concurrent TLC processes started by this check (VERIF_PROCS limits it on a shared machine)
+TLC_PAR = int(os.environ.get("VERIF_PROCS", "0") or 0) or 14
 
 # ------------------------------------------------------------------------------ configuration families
 # raw tap profiles: [quarter-sample delay, [power numerator, denominator]]; after rounding/merging/normalising
@@ -511,7 +516,7 @@ def run_disc(job):
     from pyphysim.channels import fading
     c, cases = job
     ts = TS[c["ts"]]
-    viol = []
+    viol, finds = [], []
     okc = 0
     for e in cases:
         prof = e["op"]["prof"]
@@ -545,11 +550,16 @@ def run_disc(job):
                     pass
         except Exception as ex:
             what = f"get_discretize_profile raised {type(ex).__name__}: {ex}"
+            if isinstance(ex, ValueError) and "math domain error" in str(ex) and len({p[0] for p in prof}) == 1:
+                finds.append({"id": "ProfileRmsSqrtDomain", "prof": prof, "ts": c["ts"], "exp": e["exp"],
+                              "what": f"TdlChannelProfile({dB.tolist()}, {delays.tolist()}) raised ValueError: {ex} "
+                                      f"(all taps at one delay: the variance rounds below zero)"})
+                continue
         if what:
             viol.append({"what": what, "prof": prof, "ts": c["ts"], "exp": e["exp"]})
         else:
             okc += 1
-    return okc, viol
+    return okc, viol, finds
 
 
 # ------------------------------------------------------------------------------ planning
@@ -637,7 +647,7 @@ def dev_runs(table, signals):
     def one(kv):
         cfg, defs = model(kv[1], table, signals, dev=[kv[0]], emit=False)
         return kv[0], tlc.run(MODULE, cfg, defs=defs, heap="1g")
-    with ThreadPoolExecutor(5) as ex:
+    with ThreadPoolExecutor(min(3, TLC_PAR)) as ex:
         return list(ex.map(one, dev_models(table, signals).items()))
 
 
@@ -651,16 +661,46 @@ def account_devs(ctx, res):
         ctx.notes.setdefault("deviations_refuted_by_model", {})[d] = prop + (f".{law}" if law else "")
 
 
-def coverage_run(table, signals):
-    """a small instance with -coverage: every action of the specification fires"""
-    ops = [op("T", 1, 2), op("F", 1, 1, 4, "slice", sl(0, 4, 2)), op("Dir", n=1), op("Dir", n=0), op("PL", n=1), op("Gen", 0, 2)]
-    cfgs = [base_cfg(1, "tdl", "two01", (1, 2), ops=ops, maxpos=6), base_cfg(2, "su", "two01", (0, 0), pls=[[[(1, 2)]]], ops=ops, maxpos=4),
-            disc_cfg(3, 2, [0, 2, 3], [(1, 1)], [0, 2], "dy")]
-    cfg, defs = model(cfgs, table, signals, emit=False)
-    return tlc.run(MODULE, cfg, defs=defs, coverage=True, heap="1g")
+ACTION_OF = {"T": "Transmit", "F": "TransmitFreq", "Gen": "GenerateIR", "Dir": "SetDirection", "PL": "SetPathloss",
+             "Disc": "DiscretizeCase"}
 
 
 # ------------------------------------------------------------------------------ the check
+def model_phase(ctx, cfgs, table, signals):
+    """stage M + emission: TLC on every partition of the configurations and on every deviation; -> {cid: [edges]}"""
+    import pickle
+    cache = os.environ.get("VERIF_C03_CACHE")          # builder's development aid only (skips TLC on unchanged inputs)
+    cfile = os.path.join(cache, f"{ctx.tier}-{ctx.seed}.pkl") if cache else None
+    if cfile and os.path.exists(cfile):
+        saved = pickle.load(open(cfile, "rb"))
+        ctx.states, ctx.transitions, ctx.model_runs = saved["states"], saved["transitions"], saved["model_runs"]
+        ctx.notes.update(saved["notes"])
+        return saved["edges"]
+    parts = partition(cfgs, 14)
+
+    def run_part(p):
+        cfg, defs = model(p, table, signals)
+        return tlc.run(MODULE, cfg, defs=defs, timeout=1500, heap="1500m")
+    with ThreadPoolExecutor(TLC_PAR) as ex:
+        futs = [ex.submit(run_part, p) for p in parts]
+        devf = ex.submit(dev_runs, table, signals)
+        runs = [f.result() for f in futs]
+        devres = devf.result()
+    account_devs(ctx, devres)
+    edges = {}
+    for r in runs:
+        if r.violated:
+            raise tlc.TlcError(f"specification {MODULE} violates its own law {r.violated}/{law_failed(r.out)}:\n{r.trace_text[:3000]}")
+        ctx.account(r, MODULE, "emit")
+        for e in r.emitted:
+            edges.setdefault(e["cid"], []).append(e)
+    if cfile:
+        os.makedirs(cache, exist_ok=True)
+        pickle.dump({"states": ctx.states, "transitions": ctx.transitions, "model_runs": ctx.model_runs, "notes": dict(ctx.notes),
+                     "edges": edges}, open(cfile, "wb"))
+    return edges
+
+
 def run(ctx):
     thorough = ctx.tier == "thorough"
     ctx.rule = ("TLC enumerates, per configuration, the complete graph (generator position x direction x path loss) within the "
@@ -675,29 +715,9 @@ def run(ctx):
     table, signals = tables(ctx.seed, tlen)
     ctable = (table[..., 0] + 1j * table[..., 1]).astype(complex)
     csig = (signals[..., 0] + 1j * signals[..., 1]).astype(complex)
-    parts = partition(cfgs, 14)
     by_id = {c["id"]: c for c in cfgs}
 
-    def run_part(p):
-        cfg, defs = model(p, table, signals)
-        return tlc.run(MODULE, cfg, defs=defs, timeout=1500, heap="1500m")
-    with ThreadPoolExecutor(16) as ex:
-        futs = [ex.submit(run_part, p) for p in parts]
-        devf = ex.submit(dev_runs, table, signals)
-        covf = ex.submit(coverage_run, table, signals)
-        runs = [f.result() for f in futs]
-        devres = devf.result()
-        covres = covf.result()
-    account_devs(ctx, devres)
-    ctx.account(covres, MODULE, "coverage")
-    ctx.require_actions(["Transmit", "TransmitFreq", "GenerateIR", "SetDirection", "SetPathloss", "DiscretizeCase"])
-    edges = {}
-    for r in runs:
-        if r.violated:
-            raise tlc.TlcError(f"specification {MODULE} violates its own law {r.violated}/{law_failed(r.out)}:\n{r.trace_text[:3000]}")
-        ctx.account(r, MODULE, "emit")
-        for e in r.emitted:
-            edges.setdefault(e["cid"], []).append(e)
+    edges = model_phase(ctx, cfgs, table, signals)
     rng = random.Random(ctx.seed)
     mode = {"depth": 3, "limit": 400, "walks": 60, "walk_len": 8, "max_len": 12} if thorough else {"walks": 6, "walk_len": 6}
     jobs, djobs = [], []
@@ -709,7 +729,10 @@ def run(ctx):
             uniq.setdefault(graph.key(e["pre"]) + graph.key(e["op"]), e)
         es = list(uniq.values())
         for e in es:
-            ctx.actions[e["op"]["k"]] = ctx.actions.get(e["op"]["k"], 0) + 1
+            # TLC's -coverage cost model does not terminate in reasonable memory on this module (deeply nested operator
+            # applications); the emission constraint prints every transition TLC takes, which is the same evidence
+            a = ACTION_OF[e["op"]["k"]]
+            ctx.actions[a] = ctx.actions.get(a, 0) + 1
         if c["kind"] == "disc":
             for q in range(0, len(es), 400):
                 djobs.append((c, es[q:q + 400]))
@@ -718,23 +741,29 @@ def run(ctx):
             ctx.distinct.add((cid, graph.key(e["pre"]), graph.key(e["op"])))
         for p in plan_paths(c, es, rng, mode):
             jobs.append((c, ctable, csig, p))
+    ctx.require_actions(sorted(ACTION_OF.values()))
     if not jobs or not djobs:
         raise tlc.TlcError("TLC emitted no channel transitions or no discretisation cases")
     res = pool_map(run_path, jobs, chunksize=max(1, len(jobs) // 128))
+    seen_finds = set()
     for job, (okc, viol, finds) in zip(jobs, res):
         ctx.ok(n=okc)
         ctx.trace_done()
         c = job[0]
         case = {"kind": "path", "cfg": c, "seed": ctx.seed, "tlen": tlen, "path": job[3]}
         for f in finds:
-            ctx.finding(f["id"], f"{c['kind']}/{c['pname']}/ant{c['ant']}: {f['what']}", case)
+            # one hit per distinct failing input (class family, call), however many histories reach it
+            sig = (f["id"], c["kind"], c["ant"][0] == 0, graph.key(job[3][f["step"]]["op"]))
+            if sig not in seen_finds:
+                seen_finds.add(sig)
+                ctx.finding(f["id"], f"{c['kind']}/{c['pname']}/ant{c['ant']}: {f['what']}", case)
         for v in viol[:1]:
             ctx.violation(f"{c['kind']}/{c['pname']}/ant{c['ant']}/users{c['users']}: step {v['step']} {v.get('op', '')}: {v['what']}", case)
     dres = pool_map(run_disc, djobs)
-    for job, (okc, viol) in zip(djobs, dres):
+    for job, (okc, viol, finds) in zip(djobs, dres):
         ctx.ok(n=okc)
-        for e in job[1][:okc]:
-            pass
+        for f in finds:
+            ctx.finding(f["id"], f["what"], {"kind": "disc", "cfg": job[0], "case": f})
         for v in viol[:3]:
             ctx.violation(f"discretise {v['prof']} (Ts {v['ts']}): {v['what']}", {"kind": "disc", "cfg": job[0], "case": v})
     ndisc = sum(len(j[1]) for j in djobs)
@@ -749,22 +778,28 @@ def run(ctx):
     ctx.notes["paths_replayed"] = len(jobs)
     ctx.notes["discretisation_cases"] = ndisc
     ctx.exhaustive = True
-    from . import c03_real
-    c03_real.run(ctx, [j for j in jobs])
+    from . import c03_real, c03_trace
+    c03_real.run(ctx, jobs)
+    c03_trace.run(ctx)
 
 
 def replay(ctx, data):
     c = data["case"]
     if c["kind"] == "disc":
         cfg = c["cfg"]
-        okc, viol = run_disc((cfg, [{"op": {"prof": c["case"]["prof"]}, "exp": c["case"]["exp"]}]))
+        okc, viol, finds = run_disc((cfg, [{"op": {"prof": c["case"]["prof"]}, "exp": c["case"]["exp"]}]))
         ctx.ok(n=okc)
+        for f in finds:
+            ctx.finding(f["id"], f["what"], c)
         for v in viol:
             ctx.violation(f"discretise {v['prof']}: {v['what']}", c)
         return
     if c["kind"] == "real":
         from . import c03_real
         return c03_real.replay(ctx, c)
+    if c["kind"] == "trace":
+        from . import c03_trace
+        return c03_trace.replay(ctx, c)
     cfg = c["cfg"]
     table, signals = tables(c["seed"], c["tlen"])
     ctable = (table[..., 0] + 1j * table[..., 1]).astype(complex)
